@@ -147,7 +147,35 @@ def run_shards(files, nlines):
 
 # ------------------------------------------------------------------------------------------ corrupt stream
 STYLE_NS = (IC.NS_TTS, IC.NS_ITTS, IC.NS_EBUTTS)
-BAD_VALUES = ["", "bogus", "12", "#12", "1px 2", "-", "1e", "10 px", "5s5", ":", "12:34", "1.s", " 1s", "1 s", "true false", "#ggg", "rgb(1,2)", "1c 1c 1c 1c 1c", "none none x"]
+TIME_BAD = ["", "bogus", "1.s", " 1s", "1 s", "5s5", "12:34", ":", "-", "1e", "10fx", "1s\n", "\u0663s", "00:00:01:3", "00:00:1",
+            "1:00:00", "00:00:01.", "5 f", "+1s", "1,5s", "s", ".5s", "00:00:01:02.3x"]
+RATE_BAD = ["", "x", "25x", "2 5", "-25", "25.5", "0", " 25", "\u0663"]
+MULT_BAD = ["", "1000", "1000/1001", "1000  1001", "1000 1001 7", "1 0", "0 1", "a b"]
+STYLE_BAD = ["", "bogus", "12", "#12", "1px 2", "-", "#ggg", "rgb(1,2)", "1c 1c 1c 1c 1c", "none none x"]
+PALETTES = {
+    "begin": TIME_BAD, "end": TIME_BAD, "dur": TIME_BAD,
+    "timeContainer": ["", "bogus", "Seq", "par seq"],
+    IC.q(IC.NS_XML, "space"): ["", "bogus", "Preserve", " default"],
+    IC.q(IC.NS_TTS, "ruby"): ["", "bogus", "Base", "container base"],
+    IC.q(IC.NS_TTP, "frameRate"): RATE_BAD, IC.q(IC.NS_TTP, "tickRate"): RATE_BAD, IC.q(IC.NS_TTP, "frameRateMultiplier"): MULT_BAD,
+    IC.q(IC.NS_TTP, "cellResolution"): ["", "40", "40x20", "a b", "0 0", "40 20 x", "-1 2", "40  20"],
+    IC.q(IC.NS_TTS, "extent") + "@tt": ["100px", "", "a b", "100 100", "100% 100%", "1.5px 2px", "0px 0px", "100px 100px 1px"],
+    IC.q(IC.NS_ITTP, "activeArea"): ["", "1% 2% 3%", "a b c d", "10px 10% 10% 10%", "200% 0% 10% 10%", "-1% 0% 10% 10%"],
+    IC.q(IC.NS_ITTP, "aspectRatio"): ["", "16", "16:9", "16 0", "a b", "0 9", "16 9 1"],
+    IC.q(IC.NS_TTP, "displayAspectRatio"): ["", "16", "16:9", "16 0", "a b", "0 9"],
+}
+# style attributes whose every string is a legal value are not corrupted (a font family may be any name)
+STYLE_SKIP = {"fontFamily"}
+TT_PARAMS = {"cellResolution", "extent", "activeArea"}
+LAX_PARAMS = {"begin", "end", "dur", "frameRate", "frameRateMultiplier", "tickRate", "cellResolution", "extent", "aspectRatio", "displayAspectRatio", "activeArea"}
+
+
+def palette(e, k):
+    if k in PALETTES: return PALETTES[k]
+    if k == IC.q(IC.NS_TTS, "extent") and e.tag == IC.q(IC.NS_TT, "tt"): return PALETTES[k + "@tt"]
+    if k.startswith("{") and k[1:].split("}")[0] in STYLE_NS and k.split("}")[1] not in STYLE_SKIP and e.tag != IC.q(IC.NS_TT, "tt"):
+        return STYLE_BAD
+    return None
 
 
 def dump_doc(doc):
@@ -166,13 +194,11 @@ def dump_doc(doc):
 
 
 def corruptible(tt):
-    """(element path, attribute name) of every attribute whose malformed value must be ignored"""
+    """(element path, attribute name) of every attribute the reader interprets and whose malformed value must be ignored"""
     out = []
     def walk(e, path):
         for k in e.attrib:
-            if k in ("begin", "end", "dur", "timeContainer", IC.q(IC.NS_XML, "space"), IC.q(IC.NS_TTS, "ruby")) or \
-               (k.startswith("{") and k[1:].split("}")[0] in STYLE_NS + (IC.NS_TTP, IC.NS_ITTP)):
-                out.append((path, k))
+            if palette(e, k) is not None: out.append((path, k))
         for j, c in enumerate(e): walk(c, path + [j])
     walk(tt, [])
     return out
@@ -184,17 +210,38 @@ def at_path(tt, path):
     return e
 
 
-def classify_corrupt(name, value, exc, same, logged):
+def all_paths(tt):
+    out = []
+    def walk(e, path):
+        out.append(path)
+        for j, c in enumerate(e): walk(c, path + [j])
+    walk(tt, [])
+    return out
+
+
+def lax_time(s, has_fr=True):
+    """the narrow trigger of lax-value-syntax for time expressions: an unanchored frame offset, a trailing line feed
+    after a member of the grammar, or a decimal digit outside ASCII"""
+    if any(c.isdigit() and not ("0" <= c <= "9") for c in s): return True
+    if s.endswith("\n") and GRAMMAR.match(s[:-1]): return True
+    return bool(has_fr and re.match(r"[0-9]+(\.[0-9]+)?f", s))
+
+
+def lax_param(s):
+    """prefix matches of the parameter regexes: the value starts with a digit (or is a non-ASCII digit string)"""
+    return bool(re.match(r"\d", s))
+
+
+def classify_corrupt(name, on_tt, exc, same, logged, value=""):
     """finding id covering a failure of the ignored-and-logged clause, or None"""
     local = name.split("}")[-1]
     if exc == "ZeroDivisionError" and local in ("frameRate", "frameRateMultiplier", "tickRate"): return "zero-rate-division"
-    if exc == "IndexError" and name == IC.q(IC.NS_TTS, "extent"): return "tt-extent-one-token"
+    if exc in ("ValueError", "IndexError") and on_tt and local in TT_PARAMS: return "tt-parameter-abort"
     if exc is not None: return None
-    if local in ("begin", "end", "dur", "frameRate", "frameRateMultiplier", "tickRate", "cellResolution", "aspectRatio", "displayAspectRatio"):
-        return "lax-value-syntax"
-    if local == "ruby": return "bad-ruby-drops-span"
-    if local in ("fillLineGap", "textDecoration", "opacity", "luminanceGain", "color", "backgroundColor", "textOutline", "textEmphasis", "textShadow", "fontFamily"):
-        return "lax-style-syntax"
+    if local in ("begin", "end", "dur"): return "lax-value-syntax" if lax_time(value) else None
+    if local in LAX_PARAMS and on_tt: return "lax-value-syntax" if lax_param(value) else None
+    if name == IC.q(IC.NS_TTS, "ruby"): return "bad-ruby-drops-span"
+    if name.startswith("{") and name[1:].split("}")[0] in STYLE_NS: return "lax-style-syntax"
     return None
 
 
@@ -219,6 +266,7 @@ def main():
 
     # ---------------------------------------------------------------- documents: M = code, S on the code
     import logging
+    logging.getLogger("ttconv").addHandler(logging.NullHandler()); logging.getLogger("ttconv").propagate = False
     docs = []       # (tt, table, ctx, flags, origin)
     for name, tt in seed_corpus():
         docs.append((tt, table_for(tt), ctx_of(tt), set(), "corpus:" + name))
@@ -307,7 +355,7 @@ def main():
                       "Eval vm_compute in check_all [" + ";".join(f"s{i}" for i in idx) + "]."]
     tfiles = write_shards("Cases_C04_time_", tdefs, tl)
     (tm_bad, ts_bad), tbroken = run_shards(tfiles, 2)
-    lax = [i for i in ts_bad if tinfo[i][3] == "val" and not tinfo[i][4]]
+    lax = [i for i in ts_bad if tinfo[i][3] == "val" and not tinfo[i][4] and lax_time(tinfo[i][0], tinfo[i][1] is not None)]
     other_ts = [i for i in ts_bad if i not in lax]
     run.log(f"time expressions: {ntime} strings, M/code mismatches {len(tm_bad)}, accepted outside the grammar {len(lax)}, other S failures {len(other_ts)}")
     if lax:
@@ -346,9 +394,13 @@ def main():
     hits = {}
     for i in ps_bad:
         attrs, fr, tr, exc, wf = pinfo[i]
-        has_tr = at.TickRateAttribute.qn in attrs; has_fr = at.FrameRateAttribute.frame_rate_qn in attrs
+        okint = lambda v: v is not None and re.fullmatch(r"[0-9]+", v) is not None and int(v) > 0
+        has_tr = okint(attrs.get(at.TickRateAttribute.qn)); has_fr = okint(attrs.get(at.FrameRateAttribute.frame_rate_qn))
         if exc: hits.setdefault("zero-rate-division", []).append(i)
-        elif not wf: hits.setdefault("lax-value-syntax", []).append(i)
+        elif not has_tr and has_fr and not any(lax_param(v) and not okint(v) for k, v in attrs.items() if not k.endswith("Multiplier")) \
+                and (at.FrameRateAttribute.frame_rate_multiplier_qn not in attrs or re.fullmatch(r"[1-9][0-9]* [1-9][0-9]*", attrs[at.FrameRateAttribute.frame_rate_multiplier_qn]) or not lax_param(attrs[at.FrameRateAttribute.frame_rate_multiplier_qn])):
+            hits.setdefault("tickrate-default", []).append(i)
+        elif not wf and any(lax_param(v) and not (re.fullmatch(r"[0-9]+", v) and int(v) > 0) for v in attrs.values()): hits.setdefault("lax-value-syntax", []).append(i)
         elif not has_tr and has_fr: hits.setdefault("tickrate-default", []).append(i)
         else: p_unlisted.append(i)
     for fid, idx in hits.items():
@@ -359,31 +411,39 @@ def main():
                       dict(kind="S-on-code", attributes=pinfo[i][0], frame_rate=str(pinfo[i][1]), tick_rate=pinfo[i][2], spec="Spec/TtmlTimingSpec.v spec_frame_rate / spec_tick_rate"))
 
     # ---------------------------------------------------------------- corrupt stream
-    ncor = 5000 if thorough else 400
-    cor_fail = {}; cor_unlisted = []; ncor_done = 0; nologs = 0
+    ncor = 6000 if thorough else 500
+    cor_fail = {}; cor_unlisted = []; ncor_done = 0; cor_classes = {}
     pool = [d for d in docs if corruptible(d[0])]
-    for _ in range(ncor):
+    for it in range(ncor):
         tt = rng.choice(pool)[0]
-        path, name = rng.choice(corruptible(tt))
-        bad = rng.choice(BAD_VALUES)
-        a = copy.deepcopy(tt); at_path(a, path).set(name, bad)
-        b = copy.deepcopy(tt); del at_path(b, path).attrib[name]
+        unknown = it % 6 == 5
+        if unknown:
+            # an attribute the reader does not know: the meaning must not change (and it should be reported)
+            path = rng.choice(all_paths(tt)); bad = rng.choice(["x", "", "1s", "none"])
+            name = rng.choice([IC.q(IC.NS_TTS, "bogus"), IC.q(IC.NS_TTP, "bogus"), IC.q("urn:example:foreign", "begin"), "bogus", IC.q(IC.NS_XML, "base"),
+                               IC.q(IC.NS_TTP, "contentProfiles")])
+            if name in at_path(tt, path).attrib: continue
+            a = copy.deepcopy(tt); at_path(a, path).set(name, bad); b = copy.deepcopy(tt)
+        else:
+            path, name = rng.choice(corruptible(tt))
+            bad = rng.choice(palette(at_path(tt, path), name))
+            a = copy.deepcopy(tt); at_path(a, path).set(name, bad)
+            b = copy.deepcopy(tt); del at_path(b, path).attrib[name]
         da, ea, la = IC.read_tree(a); db, eb, lb = IC.read_tree(b)
         if eb is not None or db is None: continue       # the base document itself hits a finding; judged by the document stream
         ncor_done += 1
+        cls = "unknown" if unknown else name.split("}")[-1]
+        cor_classes[cls] = cor_classes.get(cls, 0) + 1
         same = ea is None and da is not None and dump_doc(da) == dump_doc(db)
         logged = len(la) > len(lb)
         if same and logged: continue
-        if same and not logged:
-            # nothing changed but nothing was reported either
-            fid = classify_corrupt(name, bad, ea, same, logged) or "unlogged"
-            if bad == "" and name == IC.q(IC.NS_TTS, "textDecoration"): fid = "lax-style-syntax"
-        else:
-            fid = classify_corrupt(name, bad, ea, same, logged)
+        on_tt = at_path(tt, path).tag == IC.q(IC.NS_TT, "tt")
+        if unknown: fid = "unknown-attribute-not-logged" if same else None
+        else: fid = classify_corrupt(name, on_tt, ea, same, logged, bad)
         info = dict(attribute=name, value=bad, element=at_path(tt, path).tag, exception=ea, same_as_removed=same, logged=logged, document=xml_text(a))
-        if fid is None or fid == "unlogged": cor_unlisted.append(info)
+        if fid is None: cor_unlisted.append(info)
         else: cor_fail.setdefault(fid, []).append(info)
-    for fid, infos in cor_fail.items():
+    for fid, infos in sorted(cor_fail.items()):
         if not run.known(fid, f"{len(infos)} corrupted attributes, e.g. {infos[0]['attribute'].split('}')[-1]}={infos[0]['value']!r}"):
             cor_unlisted += infos
     run.log(f"corrupt stream: {ncor_done} single-attribute corruptions, failures by finding { {k: len(v) for k, v in cor_fail.items()} }, unlisted {len(cor_unlisted)}")
@@ -431,7 +491,7 @@ def main():
                    max_depth=max(depth(d[0]) for d in docs), seq_documents=sum(1 for d in docs if any(e.get("timeContainer") == "seq" for e in d[0].iter())),
                    reader_exceptions={k: sum(1 for r in recs if r["exc"] == k) for k in {r["exc"] for r in recs if r["exc"]}},
                    time_strings=ntime, time_outcomes={k: sum(1 for x in tinfo if x[3] == k) for k in ("val", "bad", "zero")},
-                   parameter_sets=npar, corruptions=ncor_done, corrupt_failures={k: len(v) for k, v in cor_fail.items()},
+                   parameter_sets=npar, corruptions=ncor_done, corruptions_by_attribute=cor_classes, corrupt_failures={k: len(v) for k, v in cor_fail.items()},
                    model_code_mismatches=n_mism, s_failures_on_code=len(s_bad))
     run.assumptions += ["XML parsing (expat / ElementTree) is outside the model: M and S start from the ElementTree structure",
                         "time-attribute strings are valued by S through the table of abstract expressions they were printed from (Coq re-prints and compares each)",
